@@ -1337,6 +1337,8 @@ pub fn init(cfg: Cfg) {
 extern "C" fn on_fatal_signal(sig: libc::c_int) {
     // memory corruption or an abort of the code under test: report the run as a
     // crash together with the schedule that led to it
+    // whatever state the allocator is in (the fault may have happened inside it)
+    crate::alloc::emergency();
     let name = match sig {
         libc::SIGSEGV => "SIGSEGV",
         libc::SIGABRT => "SIGABRT",
@@ -1403,15 +1405,12 @@ fn start_watchdog() {
             if cur == last {
                 idle += 1;
                 if idle >= limit {
-                    use std::io::Write;
-                    let out = std::io::stdout();
-                    let mut o = out.lock();
-                    let _ = writeln!(
-                        o,
-                        "RESULT {{\"verdict\":\"stuck\",\"msg\":\"no schedule point for {} s of real time\",\"steps\":{}}}",
-                        limit, cur
-                    );
-                    let _ = o.flush();
+                    // the process may be wedged inside the allocator: no allocation from here on
+                    crate::alloc::emergency();
+                    let mut w = FdWriter::new(1);
+                    use std::fmt::Write;
+                    let _ = write!(w, "RESULT {{\"verdict\":\"stuck\",\"msg\":\"no schedule point for {} s of real time\",\"steps\":{}}}\n", limit, cur);
+                    w.flush();
                     unsafe { libc::_exit(0) }
                 }
             } else {
@@ -1594,6 +1593,13 @@ pub fn violation(msg: &str) -> ! {
 
 /// the scenario completed and all its checks passed
 pub fn finish_ok() -> ! {
+    // allocator in quarantine mode: freed blocks keep their poison unless somebody wrote to them
+    if let Some((_addr, size)) = crate::alloc::verify_quarantine() {
+        fail(
+            "violation",
+            &format!("freed memory was written to: a freed block of the {}-byte size class was modified while it sat in the allocator's quarantine (write after free)", size),
+        );
+    }
     fail("ok", "")
 }
 
